@@ -131,6 +131,37 @@ def apply(e, keys):
         e["num"] = int(keys["Numb"])
 
 
+def big_link_file(res, keyprefix="C08"):
+    """A link file of several hundred blocks (beyond any 20 KiB read-ahead): every block has its effect, the last ones too."""
+    tree = pyg.Tree()
+    try:
+        n = 300
+        blocks = []
+        for i in range(n):
+            tree.write("lib/doc%03d.txt" % i, b"x\n")
+            blocks.append("Path=./doc%03d.txt\nName=Document number %03d of the collection, with a descriptive title\nNumb=%d\n" % (i, i, n - i))
+        for nm in ("draft-a.txt", "draft-b.txt", "zz-last-draft.txt"):
+            tree.write("lib/" + nm, b"draft\n")
+            blocks.append("Path=./%s\nType=X\n" % nm)
+        blocks.append("Name=Link added by the very last block\nType=1\nPath=/elsewhere\nHost=example.org\nPort=70\n")
+        text = "\n".join(blocks)
+        tree.write("lib/.names", text)
+        cfg = pyg.make_config(tree.root, **{"handlers.dir.DirHandler|cachetime": "0"})
+        r = pyg.request(reqs.build("gopher", "/lib"), cfg)
+        ents = [e for e in parse_gopher(r.out) if e[0] != "i"]
+        res.evaluations += 1
+        res.nontrivial.add(("big-link-file", len(text)))
+        names = [e[1] for e in ents]
+        want = ["Document number %03d of the collection, with a descriptive title" % i for i in range(n - 1, -1, -1)] + ["Link added by the very last block"]
+        if names != want:
+            k = next((i for i, (a, b) in enumerate(zip(names, want)) if a != b), min(len(names), len(want)))
+            res.violation(keyprefix + ":big-link-file", "blocks late in a large link file do not have their documented effect",
+                          {"link_file_bytes": len(text), "blocks": len(blocks)}, observed={"entries": len(names), "first_difference": names[k:k + 3]},
+                          required={"entries": len(want), "there": want[k:k + 3]}, replay={"big_link_file": True})
+    finally:
+        tree.close()
+
+
 def run(ctx):
     res = Result()
     res.rule = ("directories with 0-5 link blocks (every subset and order of Name/Type/Path/Host/Port/Numb/Abstract, comments, continuation "
@@ -149,12 +180,16 @@ def run(ctx):
             for i in range(nd):
                 d = "/u%d" % i
                 present = rng.sample(FILES, rng.randint(2, 6))
+                if i == 1:
+                    # no link file, no .cap file: the order is still by title, and the titles are the stripped names
+                    # ("notes" sorts after "notes 2" and "notes-old", though "notes.txt" sorts before "notes-old.txt" ...)
+                    present = ["notes.txt", "notes-old.txt", "notes 2.txt", "report.txt", "report.final.txt", "alpha.txt", "zeta.txt", "Zeta2.txt"]
                 for f in present:
                     tree.write(d + "/" + f, b"<html><head><title>Date  page</title></head></html>" if f.endswith("html") else b"x\n")
                 used = set()
                 blocks = []
                 text = ""
-                nb = rng.randint(0, 5)
+                nb = rng.randint(0, 5) if i != 1 else 0
                 targets = set()
                 hidden_targets = set()
                 for bi in range(nb):
@@ -201,7 +236,7 @@ def run(ctx):
                         tree.write(d + "/.cap/" + f0, "".join(f"{k}={v}\n" for k, v in caps[f0].items()))
                         tree.write(d + "/" + lf_name, text)
                 for f in present:
-                    if rng.random() < 0.25 and ("./" + f) not in targets:
+                    if i != 1 and rng.random() < 0.25 and ("./" + f) not in targets:
                         keys = {}
                         if rng.random() < 0.7:
                             nm = "Cap " + f + str(rng.randrange(50))
@@ -216,7 +251,7 @@ def run(ctx):
                         tree.write(d + "/.cap/" + f, "".join(f"{k}={v}\n" for k, v in keys.items()))
                 abstracts = {}
                 for f in present:
-                    if rng.random() < 0.2:
+                    if i != 1 and rng.random() < 0.2:
                         abstracts[f] = "Sidecar abstract of " + f + "\nline two"
                         tree.write(d + "/" + f + ".abstract", abstracts[f] + "\n")
                     elif rng.random() < 0.12:
@@ -278,6 +313,7 @@ def run(ctx):
                     checks.append((inp, re.sub(rb" Mod-Date: [^\r\n]*\r\n", b"", r2.out[r2.out.find(b"\r\n") + 2:])))
         finally:
             tree.close()
+    big_link_file(res)
     outs = ctx.driver.run(model_lines)
     for (inp, impl), o in zip(checks, outs):
         res.evaluations += 1
@@ -293,6 +329,11 @@ def run(ctx):
 
 def replay(data):
     rp = data["violation"]["replay"]
+    if rp.get("big_link_file"):
+        r = Result()
+        big_link_file(r)
+        print(r.violations)
+        return 0
     tree = pyg.Tree()
     try:
         cfg = pyg.make_config(tree.root, **{"handlers.dir.DirHandler|cachetime": "0", "handlers.UMN.UMNDirHandler|extstrip": rp["extstrip"]})
